@@ -104,6 +104,28 @@ def run(A, R: Report, thorough: bool):
             p = cfg.find_path(starts, [cfg.exit.id, cfg.raise_exit.id], avoid=removes + infeasible, no_exc_from=quiet)
             if p is None:
                 R.ok('R18.1', name, f'{len(removes)} removeHandler site(s) cut every path to the exits', where=where(fdata, a))
+                # the graph treats `except Exception` as catching everything; an abort of run() by KeyboardInterrupt / SystemExit is only covered by
+                # a removal in a `finally` (or bare / BaseException handler) of a try that encloses the run call
+                run_calls1 = [n_ for n_ in A.typer.own_nodes(fdata) if isinstance(n_, ast.Call) and src(n_.func) == 'self.run']
+                anchors = []
+                for n_, o_, sites_ in A.nodes_with_sites(fdata):
+                    if isinstance(n_, ast.Call) and isinstance(n_.func, ast.Attribute) and n_.func.attr == 'removeHandler' and n_.args and (src(n_.args[0]) in names or o_ is not fdata):
+                        anchors.append(n_ if o_ is fdata else sites_[0])
+                covered = False
+                for an_ in anchors:
+                    child = an_
+                    par_ = getattr(an_, '_parent', None)
+                    while par_ is not None and not isinstance(par_, (ast.FunctionDef, ast.AsyncFunctionDef)):
+                        if isinstance(par_, ast.Try) and any(x is rc for rc in run_calls1 for st_ in par_.body for x in ast.walk(st_)):
+                            in_final = any(child is st_ or any(x is child for x in ast.walk(st_)) for st_ in par_.finalbody)
+                            in_all = any((h_.type is None or 'BaseException' in src(h_.type)) and any(x is an_ for st_ in h_.body for x in ast.walk(st_)) for h_ in par_.handlers)
+                            covered = covered or in_final or in_all
+                        child = par_
+                        par_ = getattr(par_, '_parent', None)
+                if run_calls1:
+                    R.check(covered, 'R18.1', name + ' (abort of run)', key_of('leak', 'abort'), 'a finally (or catch-all handler) around run() detaches the handler',
+                            'the log handler is detached on the normal path and for `Exception`s only: when run() is aborted by KeyboardInterrupt / SystemExit the FileHandler stays on the process-global task logger, '
+                            'and the next run of this task writes through two handlers into the log', where=where(fdata, a))
             else:
                 end = cfg.nodes[p[-1]].kind
                 R.violation('R18.1', name, key_of('leak', 'exceptional' if end == 'raise' else 'normal'),
@@ -130,6 +152,23 @@ def run(A, R: Report, thorough: bool):
     R.check(dom and after_fail is None, 'R18.2', 'Task.data: _finish_run_info after successful save', key_of('finish', dom, after_fail is None),
             'run info written only after the result was processed normally', 'run info can be written although run/result processing failed, or before the result is saved',
             witness=cfg.describe_path(after_fail) if after_fail else None, where=where(fdata, fins[0]))
+
+    # the record is closed only after the value itself was stored: the store (`self._data.save()`, inlined from _process_run_result) lies on every
+    # path to _finish_run_info on which the data object persists, and a failing store cannot reach it
+    saves = [n for n in inl(A, fdata) if isinstance(n, ast.Call) and isinstance(n.func, ast.Attribute) and n.func.attr == 'save' and src(n.func.value) == 'self._data']
+    if not saves:
+        R.undecided('R18.2', 'Task.data: store before the run record', 'the store of the value (`self._data.save()`) was not found on the run path of Task.data', where=where(fdata))
+    else:
+        save_nodes = [n.id for c in saves for n in cfg_nodes_for(cfg, c)]
+        not_persisting = [n.id for n in cfg.nodes.values() if n.kind == 'edge' and src(n.ast).endswith('is_persisting') and n.label == 'F']
+        run_nodes = [n.id for c in runs for n in cfg_nodes_for(cfg, c)]
+        early = cfg.find_path([v for r_ in run_nodes for v in normal_succ(cfg, r_)], fin_nodes, avoid=save_nodes + not_persisting)
+        late_exc = [v for s_ in save_nodes for v in cfg.succ_by_label(s_, 'exc')]
+        after_failed_store = cfg.find_path(late_exc, fin_nodes) if late_exc else None
+        R.check(early is None and after_failed_store is None, 'R18.2', 'Task.data: store before the run record', key_of('store-first', early is None, after_failed_store is None),
+                'the run record is finished only after the value was stored',
+                'the run record can be written before the value is stored (or although storing failed): when `save()` raises - an unserialisable value, a full disk - the run info on disk already describes this run, '
+                'while the stored result is still the one of an earlier run', witness=cfg.describe_path(early or after_failed_store) if (early or after_failed_store) else None, where=where(fdata, fins[0]))
 
     # ---- R18.3
     R.rule('R18.3', 'the run log handler is a FileHandler on the log path opened in truncating mode', floor=1)
